@@ -93,7 +93,7 @@ def generate_solver_level(ctx):
     ns = S.make_namespace(ctx)
     st = {}
     f = harness.define(ctx, ns, "bldfm.solver", "steady_state_transport_solver",
-                       loop_specs={0: S.MeanLoop(st)}, label=S.LABEL)
+                       loop_specs={S.MEAN_LOOP: S.MeanLoop(st)}, label=S.LABEL)
     for cfg in S.configs():
         for hit in (False, True):
             def thunk(run, cfg=cfg, hit=hit):
@@ -111,7 +111,7 @@ def generate_solver_level(ctx):
                     run.oblige("dispersion-never-touches-cache", SBool(not cache.gets and not cache.puts),
                                kind="post")
                     return
-                run.oblige("lookup-once", SBool(len(cache.gets) == 1), kind="post")
+                run.oblige("lookup-before-solving", SBool(len(cache.gets) >= 1), kind="post")
                 if not cache.gets:
                     return
                 g = cache.gets[0]
@@ -120,10 +120,10 @@ def generate_solver_level(ctx):
                     run.oblige("hit-returns-without-solving", SBool(ntr == 0 and not log and not cache.puts),
                                kind="post")
                     return
-                run.oblige("miss-stores-once", SBool(len(cache.puts) == 1), kind="post")
-                if len(cache.puts) != 1:
+                run.oblige("miss-stores-the-result", SBool(len(cache.puts) >= 1), kind="post")
+                if not cache.puts:
                     return
-                p = cache.puts[0]
+                p = cache.puts[-1]
                 res = out.value
                 same = all(x is y for (_, x), (_, y) in zip(_flat(p["result"]), _flat(res))) and \
                     len(_flat(p["result"])) == len(_flat(res))
@@ -154,7 +154,7 @@ def generate_relational(ctx):
     ns = S.make_namespace(ctx)
     st = {}
     f = harness.define(ctx, ns, "bldfm.solver", "steady_state_transport_solver",
-                       loop_specs={0: S.MeanLoop(st)}, label=S.LABEL)
+                       loop_specs={S.MEAN_LOOP: S.MeanLoop(st)}, label=S.LABEL)
     SCALARS = ("xmx", "ymx", "nlx", "nly", "xm", "ym", "p000", "halo", "nx", "ny", "nz", "nlvls", "level")
     for cfg in S.configs():
         if not cfg.footprint:
@@ -227,7 +227,7 @@ def generate_relational(ctx):
             # results are real parts of the final transforms of the spectra: equal spectra and equal crops
             trB = run.transforms
             if len(trA) != len(trB) or not trA:
-                run.oblige("rel.same-transform-structure", SBool(False), kind="rel")
+                run.oblige("rel.same-transform-structure", SBool(False), kind="rel", meta={"structural": True})
                 return
             for nm, ta, tb in (("conc", trA[-2], trB[-2]), ("flx", trA[-1], trB[-1])):
                 loops.oblige_equal(run, "rel.equal-keys-give-equal-spectrum." + nm, tb.arg, ta.arg, kind="rel")
@@ -426,7 +426,7 @@ def generate_class_level(ctx):
         c = cls("dir")
         grid = (stored["X"], stored["Y"], stored["Z"])
         c.put(*[ka[a] for a in ARGS[:-1]], grid, stored["conc"], stored["flx"], extra=ka["extra"])
-        run.oblige("overwrites-an-existing-entry", SBool(len(fs.saved) == 1), kind="post")
+        run.oblige("overwrites-an-existing-entry", SBool(len(fs.saved) >= 1), kind="post")
     ctx.explore("cache.put[exists]", t_put_over, PROPS)
 
     def t_put(run):
@@ -437,10 +437,10 @@ def generate_class_level(ctx):
         kget = c._compute_key(*[ka[a] for a in ARGS])
         grid = (stored["X"], stored["Y"], stored["Z"])
         c.put(*[ka[a] for a in ARGS[:-1]], grid, stored["conc"], stored["flx"], extra=ka["extra"])
-        run.oblige("saves-once", SBool(len(fs.saved) == 1), kind="post")
-        if len(fs.saved) != 1:
+        run.oblige("saves-the-entry", SBool(len(fs.saved) >= 1), kind="post")
+        if not fs.saved:
             return
-        key, kw = fs.saved[0]
+        key, kw = fs.saved[-1]
         ok = set(kw) == {"X", "Y", "Z", "conc", "flx"} and all(kw[k] is stored[k] for k in kw)
         run.oblige("saves-the-five-arrays-under-their-names", SBool(ok), kind="post")
         same = isinstance(key, Key) and len(key.parts) == len(kget.parts)
